@@ -23,7 +23,7 @@ class C02(Prop):
             "position slices. Observed at Axis.loc (positions selected on the axis) and through a[...]. Non-trivial = "
             "axis length >= 1 and at least one bound not None; distinct = canonical JSON of the case")
     assumptions = ["labels unique and NaN-free", "np.searchsorted / slice.indices as modelled in Prim"]
-    exhaustive = {"quick": True, "thorough": True}
+    exhaustive_tiers = {"quick": True, "thorough": True}
 
     def mirrors(self):
         from dimarray.core import indexing, bases
